@@ -9,10 +9,11 @@ AREA = "dist"
 PKG = "./pkg/distribution/mock"
 HARNESS = ["zz_verif_framer_test.go"]
 TAINT_SIG = "C07 frame without a series for a peer leaseholder: previous request re-sent"
-BUGS = ["drop_part", "ack_first", "count_short", "no_broadcast", "skip_validate", "local_remote"]
+ACKFAIL_SIG = "C07 ack: commit acknowledged although a leaseholder failed to commit"
+BUGS = ["drop_part", "ack_first", "count_short", "no_broadcast", "skip_validate", "local_remote", "last_response"]
 
 
-def base_consts(nodes, groups, free, T, maxlen, maxid, maxcommits, writers, skip=False, bug="none"):
+def base_consts(nodes, groups, free, T, maxlen, maxid, maxcommits, writers, skip=False, bug="none", mayfail=False):
     gs = ", ".join('"%s"' % g for g in groups)
     ws = ", ".join('"w%d"' % (i + 1) for i in range(writers))
     return """  NNodes = %d
@@ -24,8 +25,10 @@ def base_consts(nodes, groups, free, T, maxlen, maxid, maxcommits, writers, skip
   MaxCommits = %d
   Writers = {%s}
   SkipAbsentPeers = %s
+  MayFail = %s
   Bug = "%s"
-""" % (nodes, gs, "TRUE" if free else "FALSE", T, maxlen, maxid, maxcommits, ws, "TRUE" if skip else "FALSE", bug)
+""" % (nodes, gs, "TRUE" if free else "FALSE", T, maxlen, maxid, maxcommits, ws, "TRUE" if skip else "FALSE",
+       "TRUE" if mayfail else "FALSE", bug)
 
 
 def mc_cfg(nodes=2, skip=False, bug="none", keysets=None, T=1):
@@ -36,9 +39,9 @@ CONSTANTS
   MCStarts = {0}
   MCRanges <- RangesSmall
 INVARIANTS TypeOK LocationTransparency NoPhantom StoredAtLeaseholderOnly AckedIsReadable NoStuckWriter
-PROPERTIES CommitAckOnlyAfterAll OpenFailsOnUnknownChannel IterExact
+PROPERTIES CommitAckOnlyAfterAll AckNeverHidesFailure OpenFailsOnUnknownChannel IterExact
 CHECK_DEADLOCK FALSE
-""" % (base_consts(nodes, ["A", "B"], True, T, 2, 2, 2, 1, skip=skip, bug=bug), keysets)
+""" % (base_consts(nodes, ["A", "B"], True, T, 2, 2, 2, 1, skip=skip, bug=bug, mayfail=True), keysets)
 
 
 def gen_cfg(spec, nodes, groups, T, depth, maxlen, maxid, writers, plan=0, sync_partial_ok=True, inv="EmitSim",
@@ -189,6 +192,7 @@ CONSTANTS
   MaxCommits = 1000000
   Writers = {"w1", "w2"}
   SkipAbsentPeers = FALSE
+  MayFail = FALSE
   Bug = "none"
 INVARIANTS NoPhantom StoredAtLeaseholderOnly AckedIsReadable
 PROPERTIES CommitAckOnlyAfterAll
@@ -248,6 +252,22 @@ def run(ctx):
                    "directed script: gateway 1, A on node 1, B on node 2, non-Sync writer: Write(A+B @t0); Write(A only @t2); "
                    "Commit => node 2 holds %s sample(s) of Bd (1 written). %s" % (obs.get("nosync_peer_samples"), obs.get("nosync_iter", "")),
                    {"directed": obs, "kind": "directed"})
+    # clause 4 with a REFUSING leaseholder: Commit must not be acknowledged as a success
+    fc_runs = fc_refused = 0
+    for o in obs.get("failcommit", []):
+        if "error" in o or "open_err" in o:
+            raise vlib.Inconclusive("directed failing-commit script could not run: %s" % o)
+        fc_runs += 1
+        if o.get("A_committed"):
+            raise vlib.Inconclusive("directed failing-commit script: the leaseholder accepted the overlapping commit (model drift): %s" % o)
+        fc_refused += 1
+        if o.get("commit_acked"):
+            ctx.report(ACKFAIL_SIG,
+                       "directed script: Ai leased to node 1, Bi to node 2; session 1 stores Ai@t6; session 2 on gateway %d (node %d's writer "
+                       "server slowed down, so it answers last): writer {Ai,Bi} start t0, Write(Ai,Bi @ {t2,t8}), Commit() returned SUCCESS "
+                       "although leaseholder 1 refused the commit (its range overlaps the stored domain; it still holds %d sample, not 3); "
+                       "the error surfaced only at Close: %s" % (o["gateway"], o["slow"], o["A_samples_on_node1"], str(o.get("close_err"))[:160]),
+                       {"directed": o, "kind": "directed"})
     # 3. behaviours replayed on the real cluster
     total = 0
     samples = []
@@ -339,7 +359,9 @@ def run(ctx):
         "bfs_histories_total": bfs_total,
         "design_runs": design,
         "design_faults_caught_by": teeth,
-        "directed_observations": obs,
+        "directed_observations": {k: v for k, v in obs.items() if k != "failcommit"},
+        "directed_failing_commit_runs": fc_runs,
+        "directed_failing_commit_details": [{k: (v[:80] if isinstance(v, str) else v) for k, v in o.items()} for o in obs.get("failcommit", [])],
         "harness_stats": stats,
         "rule": "TLC behaviours of DistFramer.tla (every placement of 2 index groups over 2 nodes x every gateway, depth 4, sampled; "
                 "simulated 12-14 call scripts over 3 nodes, 2 concurrent writers on different gateways, data-only writers, free "
@@ -372,7 +394,8 @@ def replay(ctx, path):
         return 0
     if obj.get("kind") == "directed":
         obs = directed(ctx)
-        if obs.get("nosync_peer_samples") != 1 or obs.get("nosync_iter"):
+        acked = [o for o in obs.get("failcommit", []) if o.get("commit_acked") and not o.get("A_committed")]
+        if obs.get("nosync_peer_samples") != 1 or obs.get("nosync_iter") or acked:
             print("VIOLATION property=C07 replay=%s" % path)
             print("  " + json.dumps(obs))
             return 1
